@@ -1044,7 +1044,7 @@ func c01Excluded(tc l4Case, f *syntax.File, sh *shape) string {
 	// dashhdoc-inner-tab, minify-last-case-op, tabwriter-vt-ff, zsh-minify-short-subscript,
 	// minify-empty-block, command-first-newline, zsh-special-param-subscript, dashhdoc-vt-ff,
 	// slice-offset-incdec, zsh-subshell-anon-func, and (by the parser fix a243c26: here-document
-	// bodies are read after a buried newline) single-heredoc-buried, heredoc-pipe-test-let.
+	// bodies are read after a buried newline) single-heredoc-buried, heredoc-pipe-test-let; zsh-modifier-tab (8504266).
 	// C01-single-heredoc-nested (root cause in the parser): SingleLine defers a here-document body
 	// to the next forced newline; when that newline is inside a later ( ), $( ), <( ) or case the
 	// parser does not read the body there.  (The `[[ ]]` / let face was repaired by a243c26.)
@@ -1345,22 +1345,6 @@ func c01Excluded(tc l4Case, f *syntax.File, sh *shape) string {
 		return bare(pe.Slice.Offset)
 	}) {
 		return "C01-zsh-simplify-slice-modifier"
-	}
-	// C01-zsh-modifier-tab: the literal of a zsh parameter modifier is written without the
-	// tabwriter escape, so a tab in it becomes a blank.
-	if sh.any(func(n syntax.Node) bool {
-		pe, ok := n.(*syntax.ParamExp)
-		if !ok {
-			return false
-		}
-		for _, l := range pe.Modifiers {
-			if strings.ContainsAny(l.Value, "\t\v\f") {
-				return true
-			}
-		}
-		return false
-	}) {
-		return "C01-zsh-modifier-tab"
 	}
 	// C01-escaped-cr-before-newline: a word ending in backslash + carriage return printed at the
 	// end of a line makes `\` CR LF, which the lexer reads as an escaped newline.
